@@ -153,7 +153,7 @@ def _int_values(rng, lo: int, hi: int, nrand: int):  # noqa: ANN001, ANN202
     width = (hi - lo + 1).bit_length()
     vals = {lo, hi, lo + 1, hi - 1, 0, 1} | ({-1} if lo < 0 else set())
     for p in range(0, width + 1):
-        for d in range(-64, 65, 1 if p < 20 else 7):
+        for d in sorted(set(range(-64, 65, 1 if p < 20 else 7)) | {-1, 0, 1}):  # the power of two itself and its two neighbours, always
             for s in (1, -1):
                 v = s * (1 << p) + d
                 if lo <= v <= hi:
@@ -416,6 +416,16 @@ def row_strings(c: Ctx) -> None:
             c.expect_raises(W.write_nullable_legacy_string, s, what=f"{n}-byte")
         c.expect_raises(W.write_legacy_string, "€" * 10923, what="32769-byte (10923 x 3-byte chars)")
         c.expect_encoding(W.write_legacy_string, R.read_legacy_string, "€" * 10922 + "x", (32767).to_bytes(2, "big") + ("€" * 10922 + "x").encode())
+        # bytes are not strings: the int16 limit does not apply to them (legacy bytes carry an int32 length, compact ones a varint)
+        for n in (32768, 65535, 65536, 1 << 20):
+            b = rng.randbytes(n)
+            for w, r in ((W.write_legacy_bytes, R.read_legacy_bytes), (W.write_nullable_legacy_bytes, R.read_nullable_legacy_bytes)):
+                c.expect_encoding(w, r, b, n.to_bytes(4, "big") + b)
+            c.expect_encoding(W.write_compact_string, R.read_compact_string_as_bytes, b, refcodec.uvarint(n + 1) + b)
+            c.expect_encoding(W.write_nullable_compact_string, R.read_compact_string_as_bytes_nullable, b, refcodec.uvarint(n + 1) + b)
+        # ... and compact *strings* may be longer than a legacy string can be
+        big = "é" * 20000
+        c.expect_encoding(W.write_compact_string, R.read_compact_string, big, refcodec.uvarint(40001) + big.encode())
         c.expect_raises(W.write_legacy_bytes, LyingBytes(b"abc"), what="2**31-byte (length-lying)")
         c.expect_raises(W.write_nullable_legacy_bytes, LyingBytes(b"abc"), what="2**31-byte (length-lying)")
         # negative length prefixes other than the null marker are not an encoding of anything: the reader may reject them (or treat
@@ -561,15 +571,17 @@ def row_time(c: Ctx) -> None:
     if c.i == 6 % c.n:
         # sub-millisecond members are written as one of the two neighbouring whole milliseconds
         for w, width in ((W.write_timedelta_i32, 4), (W.write_timedelta_i64, 8)):
-            for us in (1, -1, 499, 500, 501, 999, 1001, 1499, 1500, 1501, -499, -500, -501, 2500, -2500, 123456789) + ((2**40 * 1000 + 500,) if width == 8 else ()):
+            for us in (1, -1, 499, 500, 501, 999, 1001, 1499, 1500, 1501, 1999, 2600, 30000700, -499, -500, -501, -999, -1999, 2500, -2500, 123456789) + ((2**40 * 1000 + 500,) if width == 8 else ()):
                 exc, got = c.write(w, td(microseconds=us))
                 c.tick(w)
                 if exc is not None:
                     c.bad(f"writer-raises:{w.__name__}", f"{w.__name__}(timedelta(microseconds={us})) raised {exc!r}")
                     continue
                 v = int.from_bytes(got, "big", signed=True)
-                if len(got) != width or not (us // 1000 <= v <= -((-us) // 1000)):
-                    c.bad(f"writer-rounding:{w.__name__}", f"{w.__name__}(timedelta(microseconds={us})) wrote {v} ms, not a neighbouring whole millisecond")
+                q, rem = divmod(us, 1000)
+                nearest = {q} if rem < 500 else {q + 1} if rem > 500 else {q, q + 1}  # rounding = to the nearest millisecond; an exact tie may go either way
+                if len(got) != width or v not in nearest:
+                    c.bad(f"writer-rounding:{w.__name__}", f"{w.__name__}(timedelta(microseconds={us})) wrote {v} ms, not the nearest whole millisecond {sorted(nearest)}")
         for ms in (2**31, -(2**31) - 1, 2**40):
             c.expect_raises(W.write_timedelta_i32, td(milliseconds=ms))
     # timestamps
